@@ -24,6 +24,17 @@ def handle (j : Json) : IO Unit := do
   let contacted := (jstrList (jget impl "contacted")).eraseDups
   let os := owners (normaliseType p)
   let tys := String.intercalate "," (eps.map (fun e => e.ty ++ (if e.healthy then "" else "(down)")))
+  if kind == "breaker-scope" then
+    -- the provider's only endpoint is skipped by the engine's open breaker: by C11_contained the other provider's
+    -- endpoint is not a candidate, whatever the retry loop does about the skip
+    if jstr (jget impl "start_err") != "" then emit case false true "start-error" "" (jstr (jget impl "start_err")); return
+    let tys := jstrList (jget j "types")
+    let incompatible := !(codeCompat (tys.getD 0 "") (tys.getD 1 "")) && !(codeCompat (tys.getD 1 "") (tys.getD 0 ""))
+    let stray := jnat (jget impl "o_hits") + jnat (jget impl "stray_while_priming")
+    let ok := stray == 0 || !incompatible
+    emit case ok ok s!"breaker-scope.{jstr (jget impl "engine")}" (if ok then "" else "provider-route-left-its-provider-after-breaker-skip")
+      (if ok then "" else s!"{jstr (jget impl "engine")} engine, endpoints {tys}: after {jnat (jget impl "primed")} failed round trips on the provider's endpoint a request on /olla/{tys.getD 0 ""}/ was answered {jnat (jget impl "status")}; the provider's backend saw {jnat (jget impl "p_hits")} request(s), the other provider's backend {stray}")
+    return
   if kind == "crossfire" then
     -- two providers' clients at once: by C11_contained (and incompatible types) nothing a client sends on one
     -- provider's prefix reaches the other provider's endpoint
